@@ -21,6 +21,8 @@ pub fn names() -> Vec<String> {
     v.extend(["foo", "math::foo", "str::nothing"].iter().map(|s| s.to_string()));
     // names that differ from a builtin only in letter case, in a missing or doubled namespace, or in an
     // added character: none of them is a builtin
+    // builtins that exist only with optional features: without them these are ordinary unknown names
+    v.extend(["random", "str::regex_matches", "str::regex_replace"].iter().map(|s| s.to_string()));
     v.extend(["MAX", "Len", "TypeOf", "math::Sqrt", "STR::from", "Math::abs", "sqrt", "from", "math::max", "str::len", "max_", "_len", "math::", "::len"].iter().map(|s| s.to_string()));
     v
 }
@@ -78,6 +80,8 @@ enum Op {
     CloneIt,
     ClearFunctions,
     ClearVariables,
+    /// the combined `clear()`: forgets variables and functions, keeps the switch
+    Clear,
     SetFunction,
     SetVariable,
     /// define a user function named n that records its argument and then fails
@@ -86,12 +90,13 @@ enum Op {
     CloneFrom,
 }
 
-const OPS: [Op; 9] = [
+const OPS: [Op; 10] = [
     Op::Disable,
     Op::Enable,
     Op::CloneIt,
     Op::ClearFunctions,
     Op::ClearVariables,
+    Op::Clear,
     Op::SetFunction,
     Op::SetVariable,
     Op::SetFailingFunction,
@@ -121,6 +126,11 @@ fn apply(real: &mut HCtx, model: &mut RCtx, op: &Op, n: &str, log: &Log) {
         Op::ClearVariables => {
             real.clear_variables();
             model.vars.clear();
+        },
+        Op::Clear => {
+            real.clear();
+            model.vars.clear();
+            model.funcs.clear();
         },
         Op::SetFunction => {
             let l = log.clone();
@@ -351,7 +361,7 @@ pub fn run(cfg: &Cfg) -> Report {
     Report {
         property: ID,
         level: "model_checking",
-        rule: format!("for each of 66 names (49 builtins; foo, math::foo, str::nothing; 14 near-builtin names differing in letter case, namespace or one character): every history of length <= {depth} over {{disable builtins, enable, clone-and-continue, clone_from into a used context, clear_functions, clear_variables, define user function n, define failing user function n, bind variable n}} from an empty HashMapContext (contains the complete switch x user-function x variable x {{as built, clone, cleared}} matrix), plus EmptyContext and EmptyContextWithBuiltinFunctions; in every configuration reached, 36 call forms, each evaluated through `Node::eval_with_context` and (HashMapContext) through `Node::eval_with_context_mut` on a clone (`n(x)`, `n x` with int and string (also without a gap before the quote, followed by an operator, and under a prefix minus), `n()`, `n(x, y)`, `n(x, y, z)`, `typeof n x`, `n typeof x`, bare `n`, `n + 1`); oracle: reference resolution (user function first with the documented argument shape, recorded; else builtin table of C10 if enabled; else unknown function) . States = configurations, transitions = evaluations. Non-trivial = configurations reached by >= 2 operations"),
+        rule: format!("for each of 69 names (49 builtins; foo, math::foo, str::nothing; 14 near-builtin names differing in letter case, namespace or one character; the 3 names that are builtins only with optional features): every history of length <= {depth} over {{disable builtins, enable, clone-and-continue, clone_from into a used context, clear_functions, clear_variables, clear, define user function n, define failing user function n, bind variable n}} from an empty HashMapContext (contains the complete switch x user-function x variable x {{as built, clone, cleared}} matrix), plus EmptyContext and EmptyContextWithBuiltinFunctions; in every configuration reached, 36 call forms, each evaluated through `Node::eval_with_context` and (HashMapContext) through `Node::eval_with_context_mut` on a clone (`n(x)`, `n x` with int and string (also without a gap before the quote, followed by an operator, and under a prefix minus), `n()`, `n(x, y)`, `n(x, y, z)`, `typeof n x`, `n typeof x`, bare `n`, `n + 1`); oracle: reference resolution (user function first with the documented argument shape, recorded; else builtin table of C10 if enabled; else unknown function) . States = configurations, transitions = evaluations. Non-trivial = configurations reached by >= 2 operations"),
         nontrivial_set: "counter:nontrivial-distinct",
         exhaustive: true,
         bound_completed: format!("histories of length {depth}"),
